@@ -405,7 +405,7 @@ PROPS = {
     "C07": {
         "modules": ["Sheens.Props.C07", "Sheens.Props.MatchTotal"],
         "theorems": [],
-        "facts": ["walk_defaults_nil_control", "exec_writeback_guarded"],
+        "facts": ["walk_defaults_nil_control", "exec_writeback_guarded", "es_export_recovers"],
         "runs": {
             "quick": [("walk", ["-profile", "failing", "-n", "6000"]), ("step", ["-profile", "timeouts", "-n", "400"]),
                       ("match", ["-profile", "c03", "-n", "5000", "-reps", "2"]), ("compile", ["-n", "1000"]),
@@ -594,7 +594,7 @@ PROPS = {
     "C11": {
         "modules": ["Sheens.Props.C11"],
         "theorems": [],
-        "facts": ["es_watcher", "es_error_exits_nil_exe"],
+        "facts": ["es_watcher", "es_error_exits_nil_exe", "es_export_recovers"],
         "runs": {
             "quick": [("timeouts", ["-n", "60"]), ("step", ["-profile", "timeouts", "-n", "150"])],
             "thorough": [("timeouts", ["-n", "600"]), ("step", ["-profile", "timeouts", "-n", "1500"])],
